@@ -11,6 +11,7 @@
 (*   what the implementation's log output gives (-1 if not integral).      *)
 (***************************************************************************)
 EXTENDS DataDriven, Noise
+S == INSTANCE Splitting
 
 VARIABLE i
 Init == i = 0
@@ -49,7 +50,35 @@ FailedDyadic(r) ==
       THEN {} ELSE {"probability_is_product_over_qubits"})
 \cup (IF \A j \in DOMAIN r.obs : r.obs[j].lin_ok THEN {} ELSE {"linear_output_is_exp_of_log_output"})
 
-Failed(r) == IF r.kind = "all" THEN FailedAll(r) ELSE FailedDyadic(r)
+\* kind "metropolis": steps of SplittingSimulation.get_next_error driven with
+\* a scripted np.random; obs[j] = [cur, q, offered, s, accbits, coin, fails,
+\* next, repbits] (letters as sequences, q 0-based, accbits = -log2 of the
+\* bias handed to the coin, S!Inf if that bias is 0)
+FailedMetropolis(r) ==
+  LET n == r.n
+      Ex == [q \in 1..n |-> [s \in {"I", "X", "Y", "Z"} |->
+               IF s = "I" THEN 1
+               ELSE LET t == PermOf(r.D[q])[s] IN
+                    CASE t = "X" -> r.exps[1] [] t = "Y" -> r.exps[2] [] t = "Z" -> r.exps[3]]]
+      New(o) == S!Propose(o.cur, o.q + 1, o.s)
+  IN (IF \A j \in DOMAIN r.obs : AsSet(r.obs[j].offered) = S!Allowed(Ex, r.obs[j].q + 1)
+      THEN {} ELSE {"proposed_paulis_are_those_the_channel_allows"})
+\cup (IF \A j \in DOMAIN r.obs :
+           LET o == r.obs[j] IN
+           IF S!Possible(Ex, New(o)) /\ S!Possible(Ex, o.cur)
+           THEN o.accbits = S!AcceptBits(Ex, o.cur, New(o))
+           ELSE (S!Possible(Ex, o.cur) => o.accbits = S!Inf)
+      THEN {} ELSE {"acceptance_probability_is_the_likelihood_ratio"})
+\cup (IF \A j \in DOMAIN r.obs :
+           LET o == r.obs[j] IN o.next = S!Keep(o.cur, New(o), o.coin, o.fails)
+      THEN {} ELSE {"accepted_proposal_kept_iff_it_still_fails_and_nothing_else_changes"})
+\cup (IF \A j \in DOMAIN r.obs :
+           LET o == r.obs[j] IN S!Possible(Ex, o.next) => o.repbits = S!Bits(Ex, o.next)
+      THEN {} ELSE {"reported_likelihood_is_that_of_the_error_kept"})
+
+Failed(r) == CASE r.kind = "all" -> FailedAll(r)
+               [] r.kind = "metropolis" -> FailedMetropolis(r)
+               [] OTHER -> FailedDyadic(r)
 
 Judged == i = 0 \/ Report(Recs[i].id, Failed(Recs[i]))
 Post == PrintT(<<"CHECKED", TLCGet("distinct") - 1>>)
